@@ -17,7 +17,7 @@ def c04_plan(tier):
             "sim": (G.consts(Node={"a", "b", "c"}, MaxVer=6, MaxSlots=3, Writers={"a", "c"},
                              Features={"leave", "compact", "lose", "expire", "dup", "liveness"},
                              Budgets={2, 3, 99}), 160, 50),
-            "walks": (150, 80),
+            "walks": (1200, 80),
         }
     rc = dict(rc, EpUsed={"endpoint:e1", "endpoint:e2"})
     return rc, {
@@ -28,7 +28,7 @@ def c04_plan(tier):
         "sim": (G.consts(Node={"a", "b", "c"}, MaxVer=8, MaxSlots=4, Writers={"a", "c"},
                          Features={"leave", "compact", "lose", "expire", "dup", "liveness", "shuffle"},
                          Budgets={2, 3, 4, 99}), 2400, 70),
-        "walks": (2500, 100),
+        "walks": (15000, 100),
     }
 
 
